@@ -5,10 +5,10 @@ import json
 import os
 import pickle
 
-from vlib import (InfraError, Raw, build, copy_specs, covering_walks, log, parse_counts, parse_export, run, tlc,
+from vlib import (InfraError, Raw, build, copy_specs, covering_walks, log, parse_counts, parse_export, tlc_export, run, tlc,
                   validate_split, workdir, write_mc, HARNESS)
 
-ELEMS = {'TC': 'vh::ETC', 'TR': 'vh::ETR', 'NTR': 'vh::ENTR', 'NTRM': 'vh::ENTRM'}
+ELEMS = {'TC': 'vh::ETC', 'TR': 'vh::ETR', 'NTR': 'vh::ENTR', 'NTRM': 'vh::ENTRM', 'NTRA': 'vh::ENTRA'}
 ALLOCS = {'amcled': 1, 'stdlike': 2, 'withrealloc': 3, 'amc': 4, 'std': 5}
 CMPT = {'Cmp': 1, 'Cmp2': 2, 'CmpT': 3, 'CmpL': 4, 'CmpG': 5}
 
@@ -101,8 +101,7 @@ def smc_export(base, model, params, name):
     write_mc(d, 'MC_gen', 'MCSets', _defs(model, params),
              _cfg_lines(model, params, dict(lines=['VIEW View', 'INVARIANT Inv', 'ACTION_CONSTRAINT Export'])))
     outp = os.path.join(d, 'export.txt')
-    rc, _, dt = tlc(d, 'MC_gen', 'MC_gen.cfg', workers=6, outfile=outp, timeout=3000, heap='6g')
-    edges, tail = parse_export(outp)
+    rc, edges, tail, dt = tlc_export(d, 'MC_gen', 'MC_gen.cfg', outp, workers=6, timeout=3000, heap='6g')
     counts = parse_counts(tail)
     if rc != 0 or counts is None or 'No error has been found' not in tail:
         raise InfraError('MODEL-ERROR: model checking of %s failed (rc=%d)\n%s' % (name, rc, tail[-3000:]))
@@ -138,9 +137,8 @@ def ssim(base, model, params, num, depth, seed, name):
     write_mc(d, 'MC_sim', 'MCSets', _defs(model, params),
              _cfg_lines(model, params, dict(spec='SpecRandom', lines=['INVARIANT Inv', 'ACTION_CONSTRAINT ExportSim'])))
     outp = os.path.join(d, 'export.txt')
-    rc, _, dt = tlc(d, 'MC_sim', 'MC_sim.cfg', workers=1, outfile=outp, timeout=3000, heap='4g',
-                    extra=['-simulate', 'num=%d' % num, '-depth', str(depth), '-seed', str(seed)])
-    edges, tail = parse_export(outp)
+    rc, edges, tail, dt = tlc_export(d, 'MC_sim', 'MC_sim.cfg', outp, workers=1, timeout=3000, heap='4g',
+                                     extra=['-simulate', 'num=%d' % num, '-depth', str(depth), '-seed', str(seed)])
     if 'Error' in tail and 'Invariant' in tail:
         raise InfraError('MODEL-ERROR: simulation of %s violated an invariant\n%s' % (name, tail[-2000:]))
     init = sinit(model)
